@@ -39,11 +39,11 @@ MANIFEST = {
         note=_COMMON_NOTE + " rdtsc→epoch conversion is not modelled (System clock in the harness).", ref="§5 C05, §9.1, Appendix A.2"),
     "C06": dict(
         technique="Lean 4 proof: flag-after-flush invariants on the backend model for every schedule (flag only after the Flush event was popped, own statements popped first, every sink of every logger not yet erased flushed before the flag, other threads' strictly older statements popped under C05's hypotheses, request never dropped or counted); witnesses for F6 and F12; differential correspondence + oracle at the moment flush_log returns",
-        text=_SCOPE + "Proved: C06_flag_only_after_pop, C06_flag_numbers_unique (a caller is released only by its own Flush event), C06_own_statements_first (everything the caller's thread accepted earlier was popped — hence dispatched, C03 — before its Flush statement), C06_flush_step (processing the Flush event emits flushed / fthrow+notification for every active sink and only then raises the flag; a throwing flush blocks neither the other sinks nor the flag), C06_other_threads (grace != 0, C05 premise: every record of any thread with a strictly smaller timestamp has been popped when the flag is raised; equal clock values are a tie and not claimed), C06_flush_never_dropped (dropping and blocking queues: a refused request parks for a retry with nothing counted), C06_release. Findings proved as witnesses: F6 (pinned refresh order) and F12 (sinks of a logger marked for removal were skipped by the flush: C06_removed_logger_sink_not_flushed_unrepaired / _sink_flushed for the repaired, extracted flag value). Progress ('flush_log returns as long as the backend keeps running'): C06_flush_log_returns_partial / C06_flush_log_returns_after_grace_partial — from any reachable state of any configuration with the backend running and a COMMITTED Flush request, once every pending record is past its grace period (or after a clock tick >= grace), every continuation of quiet polls and ticks with at least as many polls as there are pending records ends with the flag raised and the caller's resume answers done (single-event and batch mode, every soft/hard limit; each quiet poll pops at least one event while anything is pending). PARTIAL: a caller still parked on the retry of a refused Flush request is not covered by that theorem (it needs the end-to-end form of C09: a drained queue grants the retry).",
+        text=_SCOPE + "Proved: C06_flag_only_after_pop, C06_flag_numbers_unique (a caller is released only by its own Flush event), C06_own_statements_first (everything the caller's thread accepted earlier was popped — hence dispatched, C03 — before its Flush statement), C06_flush_step (processing the Flush event emits flushed / fthrow+notification for every active sink and only then raises the flag; a throwing flush blocks neither the other sinks nor the flag), C06_other_threads (grace != 0, C05 premise: every record of any thread with a strictly smaller timestamp has been popped when the flag is raised; equal clock values are a tie and not claimed), C06_flush_never_dropped (dropping and blocking queues: a refused request parks for a retry with nothing counted), C06_release. Findings proved as witnesses: F6 (pinned refresh order) and F12 (sinks of a logger marked for removal were skipped by the flush: C06_removed_logger_sink_not_flushed_unrepaired / _sink_flushed for the repaired, extracted flag value). Contract over positions of the event log: C06_flush_log_contract (if the caller's Flush statement st sits in accepted = pre ++ st :: post and its flag is raised, then the flag's position n in the log is recorded, popped = pre ++ st :: more, no write of a statement of pre comes after n, and every write before n — of any thread and logger — is followed before n by a flush of its sink), C06_nothing_unflushed_at_raise (for every raised flag, flush or removal). Progress ('flush_log returns as long as the backend keeps running'): C06_flush_log_returns_committed / _committed_after_grace (a committed request: after quiet polls, at least as many as there are pending records, past the grace period, the flag is raised and resume answers done; single-event and batch mode, every soft/hard limit) and C06_flush_log_returns (a caller still in its retry loop behind a full queue, either queue type: after the drain the retry is granted — C09 end to end —, then the flag is raised and the call returns). Assumed there: the continuation is quiet (no frontend operation injected during the drain) and ReadsCommitted for the caller's context (the model's read loop leaves its reads uncommitted only when its fuel runs out, an exit the real loop does not have).",
         note=_COMMON_NOTE, ref="§5 C06, §7 F6 F12, §9.1"),
     "C08": dict(
         technique="Lean 4 proof: accounting invariants on the backend model for every schedule (discarded + blocked = reported + pending counters; ret=1 iff appended, ret=0 iff counted; control requests retried, never counted; a reclaimed context has a zero counter under the extracted F24 flag); witnesses for F17/F24 in all flag combinations; differential correspondence on the BoundedDropping build + drop-count oracle",
-        text=_SCOPE + "Proved: C08_accounting (sum of discarded statements and blocking episodes = reported through the notifier + sum of the per-context counters, over all contexts ever created), C08_dropped_equals_reported_plus_pending (dropping queue), C08_log_call_outcome (a log call returns true iff the statement is appended to the accepted history and no counter moves, false iff nothing is appended and the counter and the discarded count grow by one), C08_control_request_retried / _retry_reattempts / _control_kinds (flush, backtrace init/flush, removal requests are parked and re-attempted, never counted), C08_removed_context_reported (removed => counter 0 in every reachable state, under the extracted flag of the F24 repair), delivered statements intact and in order via C03. Witnesses by `decide`: the F17 and F24 schedules lose a count for the unrepaired flag values and report it for the repaired ones. Never both: C08_dropped_call_id_unplaced, C08_unplaced_forever, C08_discarded_never_written (the id of a refused call is in no accepted history or parked call, stays so through every schedule, and is never written at any sink). Quiescence: C08_cache_covers_registry, C08_idle_pass_drains_counters, C08_quiescent_all_reported (from a freshly started system, after ANY schedule followed by one idle poll with nothing injected, every counter of every context ever created is 0 and the discarded statements equal the reported ones). The counter protocol itself (fetch_add against load+exchange) is one atomic step in this model; its structure is an extraction obligation (counterResetAtomic) and, when present, a separate interleaving model (Reg bundle).",
+        text=_SCOPE + "Proved: C08_accounting (sum of discarded statements and blocking episodes = reported through the notifier + sum of the per-context counters, over all contexts ever created), C08_dropped_equals_reported_plus_pending (dropping queue), C08_log_call_outcome (a log call returns true iff the statement is appended to the accepted history and no counter moves, false iff nothing is appended and the counter and the discarded count grow by one), C08_control_request_retried / _retry_reattempts / _control_kinds (flush, backtrace init/flush, removal requests are parked and re-attempted, never counted), C08_removed_context_reported (removed => counter 0 in every reachable state, under the extracted flag of the F24 repair), delivered statements intact and in order via C03. Witnesses by `decide`: the F17 and F24 schedules lose a count for the unrepaired flag values and report it for the repaired ones. Never both: C08_dropped_call_id_unplaced, C08_unplaced_forever, C08_discarded_never_written (the id of a refused call is in no accepted history or parked call, stays so through every schedule, and is never written at any sink). Quiescence: C08_cache_covers_registry, C08_idle_pass_drains_counters, C08_quiescent_all_reported (from a freshly started system, after ANY schedule followed by one idle poll with nothing injected, every counter of every context ever created is 0 and the discarded statements equal the reported ones). The counter protocol itself (fetch_add against load + exchange(0)) is one atomic step in this model; at atomic-access granularity it is proved separately for every interleaving and stale load (Ctr.C08_counter_conservation: sum of returned values + newest counter = increments; C08_counter_final_pass; witnesses for load+store and for a non-atomic increment) and tied to the real ThreadContext / BackendWorker::_check_failure_counter under the N-thread atomic shim (harness h1_reg, `driver reg`).",
         note=_COMMON_NOTE, ref="§5 C08, §7 F17 F24, §9.1"),
     "C10": dict(
         technique="Lean 4 proof: fault locality on the backend model with arbitrary write_log / flush_sink fault schedules for every schedule (conservation and at-most-once survive, the event is popped on every path, a write fault splits the sink list at the first accepting thrower and touches nothing else, a flush visits every sink and raises its flag); differential correspondence with throwing recording sinks",
@@ -55,11 +55,11 @@ MANIFEST = {
         note=_COMMON_NOTE + " Override pattern formatters per sink are covered by C12. Filter concurrency: DONE is defined by happens-before (queue publication / lock), not wall-clock, because _new_filter is relaxed; there is no remove_filter in the API.", ref="§5 C16, §9.1"),
     "C17": dict(
         technique="Lean 4 proof: logger/sink life-cycle invariant on the backend model for every schedule incl. frontend steps inside a sink destructor (site 9): an erased logger has no record left in any queue or buffer, the erase rests on the per-logger emptiness check of the current state (negative witness for a hoisted check), a dead sink is unreferenced and never used after its destructor, create/remove contracts; the registries' spinlock proved under the release/acquire view semantics; differential correspondence incl. remove_logger_blocking, re-creation, sink destruction under ASan",
-        text=_SCOPE + "Proved: C17_erased_logger_has_no_record (no record of an erased logger sits in any queue or transit buffer and every parked call's logger is valid and not erased — so statements logged before the removal are all popped, hence dispatched by C03, before the erase), C17_erase_only_when_drained, C17_erase_step_guarded (the erase uses allEmpty of the CURRENT state; with site 9 a logger may get a statement and be removed while an earlier logger's sink is being destroyed), C17_hoisted_check_erases_queued_logger (decide +kernel: with the check hoisted out of the loop that logger is erased with its statement queued), C17_dead_sink_unreferenced (a sink is destroyed only when the user dropped it and no un-erased logger holds it; sinks of un-erased loggers are alive), C17_no_use_after_dtor / C17_alive_sink_no_dtor (no write or flush of a sink after its destructor in the event log), C17_parked_removal_exclusive, C17_create_returns_existing / _fresh_object / _waits_for_erase (idempotent lookup; a name is re-created with new sinks only after the old object was erased), C17_remove_busy_noop; by-name sink registry (SinkReg.*: the sorted vector of (name, weak_ptr) of SinkManager, proved for every create_or_get/get/release/sweep sequence: sorted, at most one live entry per name, create_or_get/get idempotent whatever expired entries coexist, the sweep removes exactly the expired entries and changes no answer; witnesses for an insert at the upper bound; tied by h3_sinkreg on the real SinkManager, exhaustive op sequences up to length 6 over two names plus random ones, vs `driver sinkreg`); Spin.C17_spinlock_safe (mutual exclusion and visibility of the registries' lock for the extracted memory orders, every schedule and stale-load choice; witnesses for relaxed exchange/unlock). PARTIAL: 'remove_logger_blocking returns only after the removal completed' is proved per clean-up pass (C17_removal_flag_after_erase_partial: a removal flag is raised only for a name whose object was erased in that pass, and the caller waits on the flag, C17_flag_wait); the global statement needs uniqueness of flag numbers across all statements.",
+        text=_SCOPE + "Proved: C17_erased_logger_has_no_record (no record of an erased logger sits in any queue or transit buffer and every parked call's logger is valid and not erased — so statements logged before the removal are all popped, hence dispatched by C03, before the erase), C17_erase_only_when_drained, C17_erase_step_guarded (the erase uses allEmpty of the CURRENT state; with site 9 a logger may get a statement and be removed while an earlier logger's sink is being destroyed), C17_hoisted_check_erases_queued_logger (decide +kernel: with the check hoisted out of the loop that logger is erased with its statement queued), C17_dead_sink_unreferenced (a sink is destroyed only when the user dropped it and no un-erased logger holds it; sinks of un-erased loggers are alive), C17_no_use_after_dtor / C17_alive_sink_no_dtor (no write or flush of a sink after its destructor in the event log), C17_parked_removal_exclusive, C17_create_returns_existing / _fresh_object / _waits_for_erase (idempotent lookup; a name is re-created with new sinks only after the old object was erased), C17_remove_busy_noop; by-name sink registry (SinkReg.*: the sorted vector of (name, weak_ptr) of SinkManager, proved for every create_or_get/get/release/sweep sequence: sorted, at most one live entry per name, create_or_get/get idempotent whatever expired entries coexist, the sweep removes exactly the expired entries and changes no answer; witnesses for an insert at the upper bound; tied by h3_sinkreg on the real SinkManager, exhaustive op sequences up to length 6 over two names plus random ones, vs `driver sinkreg`); Spin.C17_spinlock_safe (mutual exclusion and visibility of the registries' lock for the extracted memory orders, every schedule and stale-load choice; witnesses for relaxed exchange/unlock). 'remove_logger_blocking returns only after the removal completed': C17_removal_flag_after_erase (every reachable state, frontend operations injected at site 9 included: a raised removal flag means the logger object its request names is erased; uses C06_flag_numbers_unique) and C17_remove_blocking_returns_after_erase (when the parked remover's resume answers done, its logger is erased, every record accepted through it in any context is popped and no live actor is parked with a statement through it); the caller's request is identified by its flag number (the model's parked state does not record the kind of call).",
         note=_COMMON_NOTE + " Contract assumed (enforced identically by generator, harness and model as no-ops): no log call through a logger after remove_logger, no re-creation before the removal completed. File closing by ~FileSink is libc/OS behaviour: the harness uses recording sinks; real file sinks are C14/C15/C07's harnesses.", ref="§5 C17, §3.3 site 9, §9.1"),
     "C20": dict(
         technique="Lean 4 proof: reclamation invariants on the backend model for every schedule (invalid-context counter exact modulo 2^bits with the width extracted, a live thread's context never reclaimed, a reclaimed context empty with accepted = popped, after an idle pass the registry is exactly the live threads' contexts up to unreported failure counters); witnesses for a narrow counter (F13); differential correspondence with thread churn; shrink/capacity oracles on the unbounded builds",
-        text=_SCOPE + "Proved: C20_counter (invalidCnt = number of registered invalid contexts mod 2^bits), C20_counter_exact and C20_early_return_iff (below 2^bits registered contexts — obligation 32 <= extracted width; 1- and 2-bit witnesses reproduce F13 in miniature), C20_live_contexts_registered, C20_reclaimed_delivered (an unregistered context is empty and everything it accepted was popped: pending statements of an exited thread are delivered before the reclaim), C20_idle_poll_reclaims (after an idle pass that found everything empty every registered context is valid or holds a not yet reported failure counter — the F24 repair keeps those one more pass), C20_idle_poll_retains_live and C20_quiet_idle_poll_retains_live (idle pass with nothing injected: the registry is a permutation of the live threads' contexts, counts agree — 'contexts retained = live threads that logged'), for any number of start/exit cycles. Shrinking of the unbounded queue (capacity drops, nothing lost or reordered) is proved on the queue model in C02 (C02_shrink_iff, chain safety) and checked here by the capacity/shrink oracles on the two unbounded H2 builds; the backend model itself carries the bounded queue.",
+        text=_SCOPE + "Proved: C20_counter (invalidCnt = number of registered invalid contexts mod 2^bits), C20_counter_exact and C20_early_return_iff (below 2^bits registered contexts — obligation 32 <= extracted width; 1- and 2-bit witnesses reproduce F13 in miniature), C20_live_contexts_registered, C20_reclaimed_delivered (an unregistered context is empty and everything it accepted was popped: pending statements of an exited thread are delivered before the reclaim), C20_idle_poll_reclaims (after an idle pass that found everything empty every registered context is valid or holds a not yet reported failure counter — the F24 repair keeps those one more pass), C20_idle_poll_retains_live and C20_quiet_idle_poll_retains_live (idle pass with nothing injected: the registry is a permutation of the live threads' contexts, counts agree — 'contexts retained = live threads that logged'), for any number of start/exit cycles. The hand-over of a NEW context between register_thread_context and the backend's cache refresh is proved at atomic-access granularity (Reg.C20_registration_not_lost: never 'registered, not cached, flag consumed', for any number of threads, every schedule and stale load; C20_next_update_picks_up; witnesses for flag-before-push, reset-after-copy, relaxed unlock) and tied to the real ThreadContextManager / BackendWorker members under the N-thread atomic shim (harness h1_reg). Shrinking of the unbounded queue (capacity drops, nothing lost or reordered) is proved on the queue model in C02 (C02_shrink_iff, chain safety) and checked here by the capacity/shrink oracles on the two unbounded H2 builds; the backend model itself carries the bounded queue.",
         note=_COMMON_NOTE, ref="§5 C20, §7 F13 F24, §9.1"),
 }
 
